@@ -6,6 +6,7 @@ import (
 	"encoding/base64"
 	"encoding/json"
 	"fmt"
+	"slices"
 	"strings"
 
 	"verif/fw"
@@ -73,6 +74,10 @@ type c03Session struct {
 	cred     bool // the next line is a credential of an AUTH sub-dialogue, not a command
 	expect   []sys.Expect
 	ended    bool
+	// recipients the server refused inside the open transaction.  The model forgets them (they are
+	// no recipients), but they are part of the search state: an implementation that remembers one
+	// shows only when the transaction is completed afterwards.
+	refused []string
 }
 
 // c03Exec runs one sequence in a bubble.  It returns the model-state key.
@@ -166,6 +171,9 @@ func c03ExecUnits(c *fw.Ctx, backend string, cas any, seq [][]string, checkFrom 
 						nontrivial = nontrivial || last
 					}
 					ss.data = nil
+					if r.Class() == 2 {
+						ss.refused = nil
+					}
 					continue
 				}
 				// command mode
@@ -238,6 +246,15 @@ func c03ExecUnits(c *fw.Ctx, backend string, cas any, seq [][]string, checkFrom 
 				}
 				d.Fold(line, r)
 				switch {
+				case verb == "RCPT" && r.Class() != 2 && d.Open:
+					if a := c03Angle(line); !slices.Contains(ss.refused, a) {
+						ss.refused = append(ss.refused, a)
+						slices.Sort(ss.refused)
+					}
+				case r.Class() == 2 && (verb == "MAIL" || verb == "RSET" || verb == "HELO" || verb == "EHLO"):
+					ss.refused = nil
+				}
+				switch {
 				case r.Code == 354:
 					ss.dataMode = true
 				case r.Code == 334:
@@ -264,7 +281,7 @@ func c03ExecUnits(c *fw.Ctx, backend string, cas any, seq [][]string, checkFrom 
 		for _, p := range s.CheckDelivery(mo, ss.expect, "r1", "r2") {
 			fail(p[0], p[1])
 		}
-		key = fmt.Sprintf("g%v o%v f%s r%v dm%v data%d cred%v ended%v store%s", d.Greeted, d.Open, d.From, d.Rcpts, ss.dataMode, len(ss.data), ss.cred, ss.ended, mo.Key())
+		key = fmt.Sprintf("g%v o%v f%s r%v x%v dm%v data%d cred%v ended%v store%s", d.Greeted, d.Open, d.From, d.Rcpts, ss.refused, ss.dataMode, len(ss.data), ss.cred, ss.ended, mo.Key())
 		if ss.ended {
 			extend = false
 		}
@@ -281,6 +298,15 @@ func clipLine(l string) string {
 		return fmt.Sprintf("%q…(%d bytes)", l[:20], len(l))
 	}
 	return fmt.Sprintf("%q", l)
+}
+
+// c03Angle is the address between the angle brackets of a RCPT line ("" when there is none).
+func c03Angle(line string) string {
+	i, j := strings.IndexByte(line, '<'), strings.LastIndexByte(line, '>')
+	if i < 0 || j < i {
+		return ""
+	}
+	return line[i+1 : j]
 }
 
 func c03Verb(line string) string {
